@@ -814,7 +814,7 @@ fn comp(extra_flags: u16, gid: u16, args: Args, scale: Scale) -> Component {
     Component { extra_flags, gid, args, scale }
 }
 
-/// 0: mixed set (empty, 1-3 contours, instructions, loose bbox, composites with and without instructions, single point)
+/// 0: mixed set (empty, 1-3 contours, instructions, loose bbox, boxes that do not enclose the outline, composites with and without instructions, single point)
 fn set_basic() -> Vec<Glyph> {
     vec![
         Glyph::Empty,
@@ -842,6 +842,10 @@ fn set_basic() -> Vec<Glyph> {
         ),
         Glyph::simple(vec![vec![pt(0, 0, true)]], vec![0xFF]),
         Glyph::Simple { bbox: [3, 4, 900, 901], contours: vec![vec![pt(3, 4, true), pt(900, 901, false)]], instr: vec![], overlap: true },
+        // a header box tighter than the outline and one that lies beside it: whatever box the font declares is what an explicit
+        // bounding box carries, and the decoder must hand it back unchanged
+        Glyph::Simple { bbox: [120, 0, 280, 380], contours: vec![vec![pt(100, 0, true), pt(300, 400, true), pt(150, 200, false)]], instr: vec![], overlap: false },
+        Glyph::Simple { bbox: [1000, 1000, 1001, 1001], contours: vec![vec![pt(0, 0, true), pt(50, 60, true), pt(20, 10, true)]], instr: vec![0x01], overlap: false },
     ]
 }
 
